@@ -855,6 +855,18 @@ func mulGModel(set *models.Set) {
 		ex.StoreLeaf(cc.St, recv, sym.App(sym.Fn, "round384", sym.Canon(x), sym.Canon(y)), cc.Pos)
 		return recv, true
 	}
+	// the same routine as a plain function of the two operands returning a fresh scalar
+	set.Intercepts[models.Mod+".mulGFlooredDiv"] = func(ex *absint.Exec, cc *absint.CallCtx) (absint.Val, bool) {
+		if len(cc.Args) != 2 {
+			return nil, false
+		}
+		x := models.LoadRingOperand(ex, cc, 0, sym.Fn)
+		y := models.LoadRingOperand(ex, cc, 1, sym.Fn)
+		if x == nil || y == nil {
+			return nil, false
+		}
+		return ex.AllocAbs(models.ScalarType, models.Mod, "Scalar", sym.App(sym.Fn, "round384", sym.Canon(x), sym.Canon(y))), true
+	}
 }
 
 func fieldSpec() ringSpec {
